@@ -1,0 +1,20 @@
+//go:build verif
+
+package rueidislock
+
+// VerifGateUsers reports whether the Locker has a gate registered under the lock name and how many
+// users (g.w: pending try/WithContext calls and held locks) it counts. Read-only; used by /verif to
+// see whether a WithContext caller still sleeps on a gate that onInvalidations can find.
+func VerifGateUsers(l Locker, name string) (registered bool, users int) {
+	m, ok := l.(*locker)
+	if !ok {
+		return false, 0
+	}
+	m.mu.RLock()
+	defer m.mu.RUnlock()
+	g, ok := m.gates[name]
+	if !ok {
+		return false, 0
+	}
+	return true, g.w
+}
